@@ -977,7 +977,9 @@ class Process:
         ret = []
         if not recursive:
             for pid, ppid in ppid_map.items():
-                if ppid == self.pid:
+                # a process can't be its own child (PID 0 on some
+                # platforms reports itself as parent)
+                if ppid == self.pid and pid != self.pid:
                     try:
                         child = Process(pid)
                         # if child happens to be older than its parent
@@ -1004,6 +1006,9 @@ class Process:
                     continue
                 seen.add(pid)
                 for child_pid in reverse_ppid_map[pid]:
+                    if child_pid == self.pid:
+                        # cycle leading back to this process
+                        continue
                     try:
                         child = Process(child_pid)
                         # if child happens to be older than its parent
